@@ -446,6 +446,77 @@ fn stream_targets(ctx: &mut Ctx, r: &mut Rng, data: &[u8]) {
     });
 }
 
+/// Well-formed probe inputs through new instances of every byte-stream entry point, as canonical
+/// text.  The HTTP/2 probe's header block inserts a field into the dynamic table and refers back
+/// to it, so that HPACK state left behind anywhere shows.
+fn stream_probe() -> Vec<String> {
+    use huginn_net_http::http2_fingerprint_extractor::Http2FingerprintExtractor;
+    use huginn_net_http::http2_parser::Http2Parser;
+    use huginn_net_http::http_process::HttpProcessors;
+    use huginn_net_tls::TlsClientHelloReader;
+    let mut out = Vec::new();
+    let mut r = Rng::from_parts(&[0xC01, 0x5712]);
+    let hello = scenario::client_hello(&mut r, 4242, 700);
+    out.push(format!("ja4 {:?}", huginn_net_tls::parse_tls_client_hello_ja4(&hello)));
+    let mut rd = TlsClientHelloReader::new();
+    let mut got = Vec::new();
+    for part in hello.chunks(211) {
+        got.push(rd.add_bytes(part).map(|o| o.map(|s| format!("{:?}", (s.version, s.cipher_suites.len(), s.extensions.len(), s.generate_ja4().full.to_string())))).map_err(|e| e.to_string()));
+    }
+    out.push(format!("reader {got:?}"));
+    let p = HttpProcessors::new();
+    let q = b"GET /probe HTTP/1.1\r\nHost: probe.example\r\nUser-Agent: probe/1.0\r\nAccept-Language: de;q=0.4, fr;q=0.9\r\nCookie: a=b\r\n\r\n";
+    out.push(format!("h1req {:?}", p.parse_request(q).map(|x| crate::canon::http_req_sig(&x))));
+    let a = b"HTTP/1.1 200 OK\r\nServer: probe-srv/2\r\nContent-Type: text/plain\r\n\r\nbody";
+    out.push(format!("h1res {:?}", p.parse_response(a).map(|x| crate::canon::http_res_sig(&x))));
+    // HTTP/2: preface, SETTINGS, WINDOW_UPDATE, HEADERS whose block is
+    //   :method GET, :scheme https, :path /, literal+indexing :authority probe.example,
+    //   literal+indexing x-probe: 1, indexed 62 (= x-probe: 1 again), indexed 63 (= :authority)
+    let mut h2 = b"PRI * HTTP/2.0\r\n\r\nSM\r\n\r\n".to_vec();
+    h2.extend_from_slice(&[0, 0, 12, 4, 0, 0, 0, 0, 0, 0, 1, 0, 1, 0, 0, 0, 4, 0, 0x60, 0, 0]);
+    h2.extend_from_slice(&[0, 0, 4, 8, 0, 0, 0, 0, 0, 0, 0xef, 0, 1]);
+    let mut block = vec![0x82, 0x87, 0x84, 0x41, 13];
+    block.extend_from_slice(b"probe.example");
+    block.extend_from_slice(&[0x40, 7]);
+    block.extend_from_slice(b"x-probe");
+    block.extend_from_slice(&[1, b'1', 0xbe, 0xbf]);
+    h2.extend_from_slice(&[0, 0, block.len() as u8, 1, 5, 0, 0, 0, 1]);
+    h2.extend_from_slice(&block);
+    let hp = Http2Parser::new();
+    out.push(format!("h2req {:?}", hp.parse_request(&h2).map(|o| o.map(|x| (x.method.clone(), x.path.clone(), x.authority.clone(), x.headers.len())))));
+    out.push(format!("h2proc {:?}", p.parse_request(&h2).map(|x| crate::canon::http_req_sig(&x))));
+    out.push(format!("akamai {:?}", huginn_net_http::extract_akamai_fingerprint_from_bytes(&h2).map(|f| (f.fingerprint, f.hash))));
+    let mut e = Http2FingerprintExtractor::new();
+    let mut hist = Vec::new();
+    for part in h2.chunks(17) {
+        hist.push(e.add_bytes(part).map(|o| o.map(|f| f.fingerprint)).map_err(|x| x.to_string()));
+    }
+    out.push(format!("extractor {:?}", hist.iter().flatten().flatten().collect::<Vec<_>>()));
+    out.push(format!("lang {:?}", huginn_net_http::http_languages::get_highest_quality_language("es;q=0.3, ja;q=0.8".to_string())));
+    out
+}
+
+/// stream probe on this thread (state left by hostile streams included) and on a new thread,
+/// both against the values taken before any hostile stream was offered
+fn check_stream_probe(ctx: &mut Ctx, golden: &[String], after: u64) {
+    let here = guard(stream_probe);
+    let there = std::thread::spawn(|| guard(stream_probe)).join().unwrap_or_else(|_| Err("reference thread panicked".into()));
+    for (which, got) in [("same thread", here), ("new thread", there)] {
+        match got {
+            Ok(g) => {
+                ctx.judge(g == golden, &[], "a well-formed probe stream is analysed differently after hostile streams than before", || {
+                    let k = g.iter().zip(golden.iter()).position(|(a, b)| a != b).unwrap_or(0);
+                    json!({"where": which, "hostile_streams_before": after, "before": golden.get(k), "after": g.get(k)})
+                });
+            }
+            Err(p) => {
+                ctx.judge(false, &[], "panic while analysing the probe stream", || json!({"where": which, "panic": p}));
+            }
+        }
+    }
+    ctx.class("stream-probes-compared");
+}
+
 fn text_targets(ctx: &mut Ctx, text: &str) {
     use std::str::FromStr;
     let data = text.as_bytes();
@@ -536,8 +607,14 @@ fn hostile_frame(ctx: &mut Ctx, st: &mut FrameStage, frame: &[u8]) {
         let n = st.probe_no + (ctx.shard as u64) * 1_000_000;
         let aged = st.bank.born.elapsed() > Duration::from_secs(4);
         let got = run_probe(&mut st.bank, n);
-        let mut fresh = Bank::fresh();
-        let want = run_probe(&mut fresh, n);
+        // "as a fresh instance would": a new instance on a new thread -- per-thread state that
+        // hostile input may have left behind on this thread cannot follow it there (the virtual
+        // clock is per process, analysis results do not depend on the thread otherwise)
+        let want = if cfg!(miri) || st.probe_no % 4 != 0 {
+            run_probe(&mut Bank::fresh(), n)
+        } else {
+            std::thread::spawn(move || run_probe(&mut Bank::fresh(), n)).join().unwrap_or_else(|_| Err(("reference thread".to_string(), "panicked".to_string())))
+        };
         match (got, want) {
             (Ok(g), Ok(w)) => {
                 if aged {
@@ -833,12 +910,26 @@ pub fn run(ctx: &mut Ctx) {
             }
         }
     }
+    // streams that change HPACK state and then fail or stop (table size updates, inserts,
+    // references to entries that do not exist)
+    for i in 0..8u64 {
+        let (a, b) = scenario::simple_h2(&mut r, 100 + i, true);
+        stream_seeds.push(a);
+        stream_seeds.push(b);
+    }
+    // the probe's values before this process has seen any hostile stream, taken on a new thread
+    let golden: Vec<String> = if ctx.miri() { stream_probe() } else { std::thread::spawn(stream_probe).join().unwrap_or_default() };
+    let mut offered = 0u64;
     let mut sidx = 0u64;
     for s in &stream_seeds {
         for cut in (0..=s.len()).step_by(ctx.scale(3, 1, 29) as usize) {
             sidx += 1;
             if ctx.mine(sidx) {
                 stream_targets(ctx, &mut r, &s[..cut]);
+                offered += 1;
+                if offered % 512 == 0 && !ctx.miri() {
+                    check_stream_probe(ctx, &golden, offered);
+                }
             }
         }
     }
@@ -847,6 +938,13 @@ pub fn run(ctx: &mut Ctx) {
         let s = r.usize(stream_seeds.len());
         let m = mutate(&mut r, &stream_seeds[s]);
         stream_targets(ctx, &mut r, &m);
+        offered += 1;
+        if offered % 512 == 0 && !ctx.miri() {
+            check_stream_probe(ctx, &golden, offered);
+        }
+    }
+    if !ctx.miri() {
+        check_stream_probe(ctx, &golden, offered);
     }
     // HTTP/2 frame header grid: length x type x flags
     for t in 0..=12u8 {
@@ -915,7 +1013,29 @@ fn pcap_stage(ctx: &mut Ctx, r: &mut Rng, seeds: &[Vec<u8>]) {
     // also a truncated / corrupted container
     let bad = format!("{dir}/hostile_{}_cut.pcap", ctx.shard);
     let _ = std::fs::write(&bad, &body[..body.len() - r.usize(200).min(body.len() - 24)]);
-    for p in [&path, &bad] {
+    // record headers the capture reader refuses (captured length above the original length,
+    // above the snap length, zero or absurd; a sub-second field of a whole second or more), at a
+    // record in the middle of the file: analysis has to end or go on, not stay at that record
+    let mut variants: Vec<String> = vec![path.clone(), bad.clone()];
+    let mut offs = Vec::new();
+    let mut o = 24usize;
+    while o + 16 <= body.len() {
+        offs.push(o);
+        let incl = u32::from_le_bytes([body[o + 8], body[o + 9], body[o + 10], body[o + 11]]) as usize;
+        o += 16 + incl;
+    }
+    if offs.len() > 4 {
+        for (k, (field, value)) in [(12usize, 1u32), (8, 0x0004_0001), (8, 0xffff_ffff), (8, 0), (4, 1_000_000), (4, 0xffff_ffff), (12, 0)].iter().enumerate() {
+            let at = offs[offs.len() / 2 + k % 3];
+            let mut b = body.clone();
+            b[at + field..at + field + 4].copy_from_slice(&value.to_le_bytes());
+            let name = format!("{dir}/hostile_{}_hdr{k}.pcap", ctx.shard);
+            if std::fs::write(&name, &b).is_ok() {
+                variants.push(name);
+            }
+        }
+    }
+    for p in variants.iter() {
         stash("analyze_pcap", &std::fs::read(p).unwrap_or_default());
         let res = guard(|| {
             let (tx, rx) = std::sync::mpsc::channel();
@@ -945,9 +1065,11 @@ fn pcap_stage(ctx: &mut Ctx, r: &mut Rng, seeds: &[Vec<u8>]) {
             }
         }
     }
-    let _ = std::fs::remove_file(&path);
-    let _ = std::fs::remove_file(&bad);
+    for p in &variants {
+        let _ = std::fs::remove_file(p);
+    }
     ctx.bucket("entry/analyze_pcap");
+    ctx.class_n("analyze_pcap-capture-variants", variants.len() as u64);
 }
 
 /// re-execute a stashed input alone (no watchdog): returns when the library returns
